@@ -3,6 +3,7 @@ package policer
 import (
 	"context"
 	"errors"
+	"slices"
 
 	iec "github.com/nspcc-dev/neofs-node/internal/ec"
 	containercore "github.com/nspcc-dev/neofs-node/pkg/core/container"
@@ -248,6 +249,9 @@ type processPlacementContext struct {
 
 	// caches nodes which has been already processed in previous iterations
 	checkedNodes *nodeCache
+
+	// nodes counted as holders only because they are under maintenance
+	maintenanceNodes []uint64
 }
 
 func (p *Policer) processNodes(ctx context.Context, plc *processPlacementContext, nodes []netmap.NodeInfo, shortage uint32) {
@@ -265,6 +269,7 @@ func (p *Policer) processNodes(ctx context.Context, plc *processPlacementContext
 		plc.checkedNodes.submitReplicaHolder(node)
 		shortage--
 		uncheckedCopies++
+		plc.maintenanceNodes = append(plc.maintenanceNodes, node.Hash())
 
 		p.log.Debug("consider node under maintenance as OK",
 			zap.String("node", netmap.StringifyPublicKey(node)),
@@ -279,6 +284,7 @@ func (p *Policer) processNodes(ctx context.Context, plc *processPlacementContext
 		//   - `LOCK` object removal is a prohibited action in the GC.
 		shortage = uint32(len(nodes))
 	}
+	required := shortage
 
 	// candidates collects nodes that don't hold the object and can receive a
 	// replica. Used both for shortage replication (shortage > 0) and for rebalancing
@@ -372,6 +378,22 @@ func (p *Policer) processNodes(ctx context.Context, plc *processPlacementContext
 		plc.needLocalCopy = true
 		p.log.Debug("some of the copies are stored on nodes under maintenance, save local copy",
 			zap.Int("count", uncheckedCopies))
+	}
+
+	if uncheckedCopies > 0 && !plc.needLocalCopy {
+		// Copies on maintenance nodes are only assumed. Whatever happened above (shortage,
+		// replication to misplaced candidates), the local copy may go only if the really
+		// confirmed holders (header received or replication succeeded) suffice without them.
+		if !plc.localNodeInContainer {
+			required = 1
+		}
+		var confirmed uint32
+		for i := range nodes {
+			if plc.checkedNodes.processStatus(nodes[i]) == 0 && !slices.Contains(plc.maintenanceNodes, nodes[i].Hash()) {
+				confirmed++
+			}
+		}
+		plc.needLocalCopy = confirmed < required
 	}
 }
 
